@@ -1021,6 +1021,12 @@ class C16(CheckBase):
                                         (v0[1] / NS, ok_(vn))]
                                 if v0[1] / NS == ob.seen:
                                     prs.append((ob.seen, ob.version))
+                            if mn / NS == ob.seen:
+                                # (the new content came with the very
+                                # mtime the object has on record - a clock
+                                # that went back and forth: looking after
+                                # the write it had no reason to reload)
+                                prs.append((ob.seen, ob.version))
                             ob.taint_pairs = []
                             for pr in prs:
                                 if pr not in ob.taint_pairs:
